@@ -582,6 +582,7 @@ def configs(tier):
     add(mp="axil", kind="down", ratio=2, lanes=2, words=2, gfree=GW, dirs="w", **LV)      # incl. skipped sub-words (fix 928e147)
     add(mp="axil", kind="down", ratio=2, lanes=2, words=2, gfree=GR, dirs="r", live=1)
     add(mp="axil", kind="down", ratio=2, lanes=2, words=2, gfree=G1, strbs=[3, 1, 2], bad=1, serial=1, **LV)
+    add(mp="axil", kind="down", ratio=2, lanes=4, words=2, gfree=G1, strbs=[15, 3, 12, 0], datas=[5, 10], wwords=[1], serial=1)  # 16-bit slave
     if T:
         add(mp="axil", kind="down", ratio=2, lanes=2, words=2, gfree=G1, **LV, cost=3)
         add(mp="axil", kind="down", ratio=4, lanes=4, words=2, gfree=G1, strbs=[15, 1, 3, 8, 6, 0], datas=[5, 10], wwords=[1], serial=1,
